@@ -54,6 +54,40 @@ structure Redox where
   water : Rat
 deriving Inhabited
 
+/-- an isotope for which a balance is requested (`inv_ptr->isotopes`) -/
+structure IsoElt where
+  name : String          -- element name as given in -isotopes (without valence)
+  prim : String          -- name of the primary master of that element
+  number : Rat
+  isHO : Bool            -- the element is H or O (no "epsilon of total" terms)
+deriving Inhabited
+
+/-- one entry of `inv_ptr->isotope_unknowns` (a column per solution) -/
+structure IsoUnk where
+  master : String        -- element name of the master (valence state) the ratio belongs to
+  number : Rat
+deriving Inhabited
+
+/-- isotope datum of a solution (`solution_ptr->Get_isotopes()`, in map order) -/
+structure SolIso where
+  master : String        -- master_bsearch(elt_name)->elt->name
+  prim : String          -- master_bsearch_primary(elt_name)->elt->name
+  number : Rat
+  total : Rat
+  ratio : Rat
+  xunc : Rat             -- x_ratio_uncertainty (set by check_isotopes)
+deriving Inhabited
+
+/-- isotope datum of a phase (`inv_ptr->phases[i].isotopes`, sorted) -/
+structure PhIso where
+  name : String          -- elt_name as written with the phase
+  prim : String
+  number : Rat
+  ratio : Rat
+  coef : Rat
+  unc : Rat
+deriving Inhabited
+
 structure Problem where
   solns : List Soln      -- last one is the final solution
   elts : List Elt
@@ -66,6 +100,11 @@ structure Problem where
   iAlk : Nat
   iCarb : Option Nat
   range : Bool
+  rowNames : List String := []            -- element name of every mass-balance row
+  isos : List IsoElt := []
+  isoUnk : List IsoUnk := []
+  solIso : List (List SolIso) := []       -- per solution
+  phIso : List (List PhIso) := []         -- per phase
 deriving Inhabited
 
 namespace Problem
@@ -111,6 +150,8 @@ def scaleEps : Rat := 1 / 1024      -- SCALE_EPSILON = .0009765625
 
 inductive Var
   | soln (q : Nat) | phase (i : Nat) | redox (k : Nat) | eps (e q : Nat) | ph (q : Nat) | water
+  | iso (q k : Nat)       -- adjustment of the isotope ratio of unknown `k` in solution `q` (times the mixing fraction)
+  | phiso (i n : Nat)     -- adjustment of the ratio of isotope `n` in phase `i` (times the mole transfer)
 deriving DecidableEq, Repr, Inhabited
 
 inductive RowKind | opt | eq | le
@@ -180,6 +221,87 @@ def waterRows : List Row :=
      { kind := .le, rhs := p.waterUnc, coeffs := [(Var.water, -1)] }]
   else []
 
+/-! ### isotopes (isotope_balance_equation, the isotope part of setup_inverse, phase_isotope_inequalities) -/
+
+def nIso : Nat := p.isos.length
+def nIU : Nat := p.isoUnk.length
+def solIsos (q : Nat) : List SolIso := p.solIso.getD q []
+def phIsos (i : Nat) : List PhIso := p.phIso.getD i []
+
+/-- solution isotopes of solution `q` that belong to requested isotope `n` (same primary master and number) -/
+def solMatch (q n : Nat) : List SolIso :=
+  let ie := p.isos.getD n default
+  (p.solIsos q).filter fun si => si.prim == ie.prim && si.number == ie.number
+
+/-- column of "epsilon of total moles of the valence state": the element row with the master's name; when there is
+    none the index arithmetic of the code lands in the pH column of the solution -/
+def epsVarOf (q : Nat) (master : String) : Var × Bool :=
+  let k := p.rowNames.findIdx (· == master)
+  if k < p.ne then (Var.eps k q, true) else (Var.ph q, false)
+
+/-- last isotope unknown with that master and number (the search loop has no `break`) -/
+def unkOf (si : SolIso) : Option Nat :=
+  ((rng p.nIU).filter fun k => (p.isoUnk.getD k default).master == si.master && (p.isoUnk.getD k default).number == si.number).getLast?
+
+/-- first datum of the phase for requested isotope `n` (primary master and number; `break`) -/
+def phMatch (i n : Nat) : Option PhIso :=
+  let ie := p.isos.getD n default
+  (p.phIsos i).find? fun pi => pi.prim == ie.prim && pi.number == ie.number
+
+/-- index of a phase datum in the requested isotopes (element NAME and number), as phase_isotope_inequalities finds it -/
+def isoIndexOf (pi : PhIso) : Option Nat :=
+  let k := p.isos.findIdx fun ie => ie.name == pi.name && ie.number == pi.number
+  if k < p.nIso then some k else none
+
+/-- data of phase `i` that phase_isotope_inequalities processes (it stops at the first datum that is not requested) -/
+def phProcessed (i : Nat) : List (PhIso × Nat) :=
+  ((p.phIsos i).map fun pi => (pi, p.isoIndexOf pi)).takeWhile (fun x => x.2.isSome) |>.map fun x => (x.1, x.2.getD 0)
+
+/-- the phase-isotope column (i, n) is zeroed ("zero column if uncertainty is zero") -/
+def phisoZero (i n : Nat) : Bool := (p.phProcessed i).any fun x => x.2 == n && x.1.unc == 0
+
+/-- isotope mole balance of requested isotope `n`, linearised as the code writes it:
+    Σ_q ±(α_q·T·R + R·ε_total + T·ε_ratio) + Σ_i (R_i·c_i·x_i + c_i·ε_ratio,i) = 0 -/
+def isoRow (n : Nat) : Row :=
+  { kind := .eq, rhs := 0,
+    coeffs :=
+      (rng p.ns).flatMap (fun q =>
+        (Var.soln q, p.sgn q * sumR ((p.solMatch q n).map fun si => si.total * si.ratio)) ::
+        ((if (p.isos.getD n default).isHO then [] else
+            (p.solMatch q n).map fun si =>
+              let ev := p.epsVarOf q si.master
+              (ev.1, if ev.2 then (match ev.1 with | .eps k _ => p.epsCoef q k (p.sgn q * si.ratio) | _ => 0) else p.sgn q * si.ratio)) ++
+         (p.solMatch q n).filterMap fun si => (p.unkOf si).map fun k => (Var.iso q k, p.sgn q * si.total))) ++
+      (rng p.np).flatMap (fun i =>
+        match p.phMatch i n with
+        | some pi => [(Var.phase i, pi.ratio * pi.coef), (Var.phiso i n, if p.phisoZero i n then 0 else pi.coef)]
+        | none => []) }
+
+/-- first isotope datum of solution `q` for unknown `k` -/
+def solIsoOf (q k : Nat) : Option SolIso :=
+  let u := p.isoUnk.getD k default
+  (p.solIsos q).find? fun si => si.master == u.master && si.number == u.number
+
+def isoIneqRows (q k : Nat) : List Row :=
+  match p.solIsoOf q k with
+  | some si =>
+    [{ kind := .le, rhs := 0, coeffs := [(Var.iso q k, 1), (Var.soln q, -si.xunc)] },
+     { kind := .le, rhs := 0, coeffs := [(Var.iso q k, -1), (Var.soln q, -si.xunc)] }]
+  | none => []
+
+def phisoIneqRows (i : Nat) : List Row :=
+  (p.phProcessed i).flatMap fun x =>
+    let pi := x.1; let n := x.2
+    let c := (p.phases.getD i default).constr
+    if pi.unc = 0 then []
+    else if c < 0 then
+      [{ kind := .le, rhs := 0, coeffs := [(Var.phase i, pi.unc), (Var.phiso i n, 1)] },
+       { kind := .le, rhs := 0, coeffs := [(Var.phase i, pi.unc), (Var.phiso i n, -1)] }]
+    else if c > 0 then
+      [{ kind := .le, rhs := 0, coeffs := [(Var.phase i, -pi.unc), (Var.phiso i n, -1)] },
+       { kind := .le, rhs := 0, coeffs := [(Var.phase i, -pi.unc), (Var.phiso i n, 1)] }]
+    else []
+
 /-- optimisation row `r` (row index = column - col_epsilon) -/
 def optRow (r : Nat) : Row :=
   { kind := .opt, rhs := 0,
@@ -190,16 +312,31 @@ def optRow (r : Nat) : Row :=
       else if r < p.ne * p.ns + p.ns then
         let q := r - p.ne * p.ns
         if p.carbon then [(Var.ph q, scaleEps / (p.soln q).phUnc)] else []
-      else [] }
+      else if r < p.ne * p.ns + p.ns + 1 then []
+      else if r < p.ne * p.ns + p.ns + 1 + p.ns * p.nIU then
+        let j := r - (p.ne * p.ns + p.ns + 1)
+        let q := j / p.nIU; let k := j % p.nIU
+        match p.solIsoOf q k with
+        | some si => [(Var.iso q k, scaleEps / si.xunc)]
+        | none => []
+      else
+        let j := r - (p.ne * p.ns + p.ns + 1 + p.ns * p.nIU)
+        let i := j / p.nIso; let n := j % p.nIso
+        match (p.phProcessed i).find? (fun x => x.2 == n) with
+        | some x => if x.1.unc = 0 then [] else [(Var.phiso i n, scaleEps / x.1.unc)]
+        | none => [] }
 
-def countOptimize : Nat := p.ne * p.ns + p.ns + 1
+def countOptimize : Nat := p.ne * p.ns + p.ns + 1 + p.ns * p.nIU + p.nIso * p.np
 
 def eqRows : List Row :=
-  (rng p.ne).map p.mbRow ++ [p.waterRow, p.fractRow] ++ (rng p.ns).map p.chargeRow ++ (rng p.ns).map p.dalkRow
+  (rng p.ne).map p.mbRow ++ [p.waterRow, p.fractRow] ++ (rng p.ns).map p.chargeRow ++ (rng p.ns).map p.dalkRow ++
+  (rng p.nIso).map p.isoRow
 
 def leRows : List Row :=
   (rng p.ns).flatMap (fun q => (rng p.ne).flatMap (fun e => p.epsRows q e)) ++
-  (rng p.ns).flatMap p.phRows ++ p.waterRows
+  (rng p.ns).flatMap p.phRows ++ p.waterRows ++
+  (rng p.ns).flatMap (fun q => (rng p.nIU).flatMap (fun k => p.isoIneqRows q k)) ++
+  (rng p.np).flatMap p.phisoIneqRows
 
 /-- all rows of `my_array` in the order `setup_inverse` writes them -/
 def setupMatrix : List Row := (rng p.countOptimize).map p.optRow ++ p.eqRows ++ p.leRows
@@ -214,7 +351,9 @@ def signOf : Var → Int
 /-- every unknown of the problem, in column order -/
 def vars : List Var :=
   (rng p.ns).map Var.soln ++ (rng p.np).map Var.phase ++ (rng p.nr).map Var.redox ++
-  (rng p.ne).flatMap (fun e => (rng p.ns).map (fun q => Var.eps e q)) ++ (rng p.ns).map Var.ph ++ [Var.water]
+  (rng p.ne).flatMap (fun e => (rng p.ns).map (fun q => Var.eps e q)) ++ (rng p.ns).map Var.ph ++ [Var.water] ++
+  (rng p.ns).flatMap (fun q => (rng p.nIU).map (fun k => Var.iso q k)) ++
+  (rng p.np).flatMap (fun i => (rng p.nIso).map (fun n => Var.phiso i n))
 
 def colIndex : Var → Nat
   | .soln q => q
@@ -223,11 +362,52 @@ def colIndex : Var → Nat
   | .eps e q => p.ns + p.np + p.nr + e * p.ns + q
   | .ph q => p.ns + p.np + p.nr + p.ne * p.ns + q
   | .water => p.ns + p.np + p.nr + p.ne * p.ns + p.ns
+  | .iso q k => p.ns + p.np + p.nr + p.ne * p.ns + p.ns + 1 + q * p.nIU + k
+  | .phiso i n => p.ns + p.np + p.nr + p.ne * p.ns + p.ns + 1 + p.ns * p.nIU + i * p.nIso + n
+
+def ncol : Nat := p.ns + p.np + p.nr + p.ne * p.ns + p.ns + 1 + p.ns * p.nIU + p.np * p.nIso
 
 /-- a vector satisfies the equalities, inequalities and sign constraints (what cl1 certifies with kode = 0) -/
 def Satisfies (x : Var → Rat) : Prop :=
   (∀ r ∈ p.eqRows, r.eval x = r.rhs) ∧ (∀ r ∈ p.leRows, r.eval x ≤ r.rhs) ∧
   (∀ v ∈ p.vars, (p.signOf v > 0 → 0 ≤ x v) ∧ (p.signOf v < 0 → x v ≤ 0))
+end Problem
+
+/-! ## feasibility of a vector for the LP of a mask (`solve_with_mask`, `range`): executable test -/
+
+namespace Problem
+variable (p : Problem)
+
+/-- `shrink`: does the column of this unknown survive for the bit set `mask` (phases low bits, solutions above)? -/
+def inMask (mask : Nat) : Var → Bool
+  | .phase i => mask.testBit i
+  | .soln q => q + 1 = p.ns || mask.testBit (p.np + q)
+  | .eps _ q => q + 1 = p.ns || mask.testBit (p.np + q)
+  | .ph q => q + 1 = p.ns || mask.testBit (p.np + q)
+  | .redox _ => true
+  | .water => true
+  | .iso q _ => q + 1 = p.ns || mask.testBit (p.np + q)
+  | .phiso i _ => mask.testBit i
+
+/-- the unknowns of dropped columns are zero -/
+def ZeroOutside (mask : Nat) (x : Var → Rat) : Prop := ∀ v ∈ p.vars, p.inMask mask v = false → x v = 0
+
+/-- feasible set of every LP that `solve_with_mask` / `range` build for `mask` -/
+def Feasible (mask : Nat) (x : Var → Rat) : Prop := p.Satisfies x ∧ p.ZeroOutside mask x
+
+/-- executable version of `Satisfies` with tolerance `t` (what test_cl1_solution re-tests) -/
+def satB (t : Rat) (x : Var → Rat) : Bool :=
+  p.eqRows.all (fun r => decide (absR (r.eval x - r.rhs) ≤ t)) &&
+  p.leRows.all (fun r => decide (r.eval x ≤ r.rhs + t)) &&
+  p.vars.all (fun v => (!decide (p.signOf v > 0) || decide (-t ≤ x v)) && (!decide (p.signOf v < 0) || decide (x v ≤ t)))
+
+def zeroOutsideB (t : Rat) (mask : Nat) (x : Var → Rat) : Bool :=
+  p.vars.all (fun v => p.inMask mask v || decide (absR (x v) ≤ t))
+
+/-- the LP `range()` solves for column `v`: objective row (coefficient 1, right-hand side -R for the minimum, +R for the
+    maximum) in place of the optimisation rows, all equalities and inequalities unchanged -/
+def rangeLP (v : Var) (target : Rat) : List Row :=
+  { kind := .opt, coeffs := [(v, 1)], rhs := target } :: (p.eqRows ++ p.leRows)
 end Problem
 
 /-! ## models and admissibility -/
@@ -239,6 +419,8 @@ structure Model where
   eps : Nat → Nat → Rat      -- eps e q = alpha q * (adjustment of element e in solution q)
   ph : Nat → Rat
   water : Rat
+  iso : Nat → Nat → Rat := fun _ _ => 0      -- iso q k
+  phiso : Nat → Nat → Rat := fun _ _ => 0    -- phiso i n
   minA : Nat → Rat
   maxA : Nat → Rat
   minX : Nat → Rat
@@ -251,10 +433,13 @@ def Model.assign (m : Model) : Var → Rat
   | .eps e q => m.eps e q
   | .ph q => m.ph q
   | .water => m.water
+  | .iso q k => m.iso q k
+  | .phiso i n => m.phiso i n
 
 def decode (x : Var → Rat) (mn mx : Var → Rat) : Model :=
   { alpha := fun q => x (.soln q), x := fun i => x (.phase i), r := fun k => x (.redox k),
     eps := fun e q => x (.eps e q), ph := fun q => x (.ph q), water := x .water,
+    iso := fun q k => x (.iso q k), phiso := fun i n => x (.phiso i n),
     minA := fun q => mn (.soln q), maxA := fun q => mx (.soln q),
     minX := fun i => mn (.phase i), maxX := fun i => mx (.phase i) }
 
@@ -283,6 +468,30 @@ structure Balanced (t : Rat) (m : Model) : Prop where
 structure InRange (t : Rat) (m : Model) : Prop where
   alpha : ∀ q, q < p.ns → m.minA q - t ≤ m.alpha q ∧ m.alpha q ≤ m.maxA q + t
   phase : ∀ i, i < p.np → m.minX i - t ≤ m.x i ∧ m.x i ≤ m.maxX i + t
+
+/-- isotope part of a model: the (linearised) isotope mole balances hold, every adjustment of a solution's isotope
+    ratio is within its uncertainty (times the mixing fraction), every adjustment of a phase's ratio within its uncertainty
+    (times the magnitude of the transfer; only for phases constrained to dissolve or precipitate) -/
+structure IsoBalanced (t : Rat) (m : Model) : Prop where
+  mb : ∀ n, n < p.nIso → absR ((p.isoRow n).eval m.assign) ≤ t
+  sol : ∀ q k si, q < p.ns → k < p.nIU → p.solIsoOf q k = some si →
+          m.iso q k ≤ si.xunc * m.alpha q + t ∧ -(m.iso q k) ≤ si.xunc * m.alpha q + t
+  phase : ∀ i pi n, i < p.np → (pi, n) ∈ p.phProcessed i → pi.unc ≠ 0 →
+          ((p.phases.getD i default).constr < 0 → m.phiso i n ≤ -(pi.unc * m.x i) + t ∧ -(m.phiso i n) ≤ -(pi.unc * m.x i) + t) ∧
+          ((p.phases.getD i default).constr > 0 → m.phiso i n ≤ pi.unc * m.x i + t ∧ -(m.phiso i n) ≤ pi.unc * m.x i + t)
+
+def checkIso (t : Rat) (m : Model) : Bool :=
+  (rng p.nIso).all (fun n => decide (absR ((p.isoRow n).eval m.assign) ≤ t)) &&
+  (rng p.ns).all (fun q => (rng p.nIU).all (fun k =>
+    match p.solIsoOf q k with
+    | some si => decide (m.iso q k ≤ si.xunc * m.alpha q + t) && decide (-(m.iso q k) ≤ si.xunc * m.alpha q + t)
+    | none => true)) &&
+  (rng p.np).all (fun i => (p.phProcessed i).all fun x =>
+    x.1.unc == 0 ||
+    ((!decide ((p.phases.getD i default).constr < 0) ||
+        (decide (m.phiso i x.2 ≤ -(x.1.unc * m.x i) + t) && decide (-(m.phiso i x.2) ≤ -(x.1.unc * m.x i) + t))) &&
+     (!decide ((p.phases.getD i default).constr > 0) ||
+        (decide (m.phiso i x.2 ≤ x.1.unc * m.x i + t) && decide (-(m.phiso i x.2) ≤ x.1.unc * m.x i + t)))))
 
 def Admissible (t : Rat) (m : Model) : Prop := p.Balanced t m ∧ (p.range = true → p.InRange t m)
 
@@ -372,6 +581,28 @@ def stepRow (rows : List RowId) (u : Nat → List Rat) (en : BalEntry) : Nat →
 /-- uncertainties of row `i` after tidy_inverse: defaults, then all element-wide entries, then all row entries -/
 def propagateUnc (rows : List RowId) (dflt : List Rat) (entries : List BalEntry) : Nat → List Rat :=
   entries.foldl (stepRow rows) (entries.foldl (stepElem rows) (fun _ => dflt))
+
+/-- a master species as far as setup_inverse looks at it: element name, coefficient, is it H+ / H2O -/
+structure MasterInfo where
+  name : String
+  coef : Rat
+  isH : Bool
+  isH2O : Bool
+deriving Inhabited
+
+/-- setup_inverse, reaction tokens: the master of a species is its secondary master if it has one, else its primary
+    (names, "" = none); H+ is skipped (-2), H2O goes to the water row (-1), any other master to the element row with that
+    name (-3 when it is not a row). Returns (row, master coefficient). -/
+def resolveToken (rowNames : List String) (masters : List MasterInfo) (sec prim : String) : Int × Rat :=
+  let nm := if sec ≠ "" then sec else prim
+  match masters.find? (fun m => m.name == nm) with
+  | none => (-3, 0)
+  | some m =>
+    if m.isH then (-2, m.coef)
+    else if m.isH2O then (-1, m.coef)
+    else
+      let i := rowNames.findIdx (· == nm)
+      if i < rowNames.length then (Int.ofNat i, m.coef) else (-3, m.coef)
 
 /-! ## the subset search (`solve_inverse`, `minimal_solve`, `next_set_phases`, bit-set helpers) -/
 
